@@ -285,6 +285,7 @@ def plan(tier, seed):
 
 def run_shard(cfg):
     rec = Rec(cfg)
+    rec.extra["first_use"] = zoo.warm_up(cfg["k"], base=lambda: FL(1), derived=lambda: FS(2))
     u, b, menu = op_menu()
     if cfg["k"] == 0:
         check_part1(rec)
